@@ -407,7 +407,7 @@ def rule_crc(ctx, px):
     pc = ctx.fn("aiokafka.record.default_records._DefaultRecordBatchPy.crc")
     hs = env.get("HEADER_STRUCT")
     fields = hs.fields()
-    ctx.ob(R, pc, pc.node, unparse(pc.node.body[-1]) == "return self._header_data[4]" and fields[4][0] == 17 and fields[4][2] == "I", "pure-Python stored v2 CRC is not header field 4 (uint32 at byte 17)", text="py-v2-stored")
+    ctx.ob(R, pc, pc.node, (lambda v: v is not None and unparse(v) == "self._header_data[4]")(__import__("sa.rulekit", fromlist=["x"]).only_return_value(pc.node)) and fields[4][0] == 17 and fields[4][2] == "I", "pure-Python stored v2 CRC is not header field 4 (uint32 at byte 17)", text="py-v2-stored")
     f3 = ctx.fn("aiokafka.record.legacy_records._LegacyRecordBatchPy.validate_crc")
     env3 = ConstEnv(f3.module.tree, "_LegacyRecordBatchPy")
     src = unparse(f3.node)
